@@ -122,7 +122,8 @@ def run(spec, opts=None, model=None, call=None):
         tb = traceback.extract_tb(e.__traceback__)
         site = [f for f in tb if "/pDESy/" in f.filename]
         if site:
-            ex.error = "%s @ %s:%s" % (ex.error, site[-1].filename.split("/pDESy/")[-1], site[-1].name)
+            callers = [f.name for f in site if f.name != site[-1].name]
+            ex.error = "%s @ %s:%s<-%s" % (ex.error, site[-1].filename.split("/pDESy/")[-1], site[-1].name, callers[-1] if callers else "?")
         ex.error_tb = traceback.format_exc()
     finally:
         bootstrap.clear_observer()
